@@ -1,6 +1,7 @@
 package main
 
 import (
+	"go/constant"
 	"fmt"
 	"go/token"
 	"go/types"
@@ -456,6 +457,16 @@ func ruleFanOut(c *Ctx) {
 	if !c.Require(outputsF != nil && mutexF != nil, "R15.3", "anchor:DynamicFanOut.outputs/mutex", "fields not found") {
 		return
 	}
+	// the value the goroutine works on is the value everybody else uses: a copy made after `go f.run()` (a constructor
+	// returning the struct by value) has its own mutex but shares the map - no critical section excludes the delivery loop
+	{
+		sites := lockCopies(c.P, func(fn *ssa.Function) bool { return c.P.OwnedFunc(fn) && !strings.Contains(pkgPathOf(topFunc(fn)), "/controls") })
+		bad := ""
+		for _, s := range sites {
+			bad = fmt.Sprintf("%s: the %s value is copied at %s although a goroutine started at %s keeps using the original: the copy has its own mutex but shares the maps/channels, so Spawn/Despawn no longer exclude the delivery loop (send on a closed channel, concurrent map access)", shortFn(s.fn), s.typ, c.P.Pos(s.copyPos), c.P.Pos(s.goPos))
+		}
+		c.Check(bad == "", "R15.3", "lock-carrying-value-not-copied-after-its-goroutine-started", "-", "no value that carries a mutex is copied after a goroutine was started on it", bad)
+	}
 	la := newLockAnalysis(c.P, named)
 	for _, f := range []*ssa.Function{run, spawn, despawn} {
 		c.Fn(shortFn(f))
@@ -851,6 +862,19 @@ func managerWaitsForDevices(c *Ctx, run *ssa.Function) (bool, string) {
 func controlsC15(p *Program) []controlResult {
 	// controls/lockedsend: Bad sends under a mutex, Good copies under the mutex and sends outside
 	var res []controlResult
+	{
+		sites := lockCopies(p, func(fn *ssa.Function) bool { return strings.HasSuffix(pkgPathOf(topFunc(fn)), "/lockedsend") })
+		gotBad, gotGood := false, false
+		for _, s := range sites {
+			switch s.fn.Name() {
+			case "NewBadFanByValue":
+				gotBad = true
+			case "NewGoodFanByPointer":
+				gotGood = true
+			}
+		}
+		res = append(res, controlResult{"R15.3 lock-copy control", gotBad && !gotGood, fmt.Sprintf("by-value constructor reported=%v, by-pointer constructor reported=%v", gotBad, gotGood)})
+	}
 	for _, name := range []string{"BadFan", "GoodFan"} {
 		var named *types.Named
 		var run *ssa.Function
@@ -996,6 +1020,43 @@ func ruleInsertUnderMiss(c *Ctx, spawn *ssa.Function, outputsF *types.Var) {
 						}
 					}
 					okMiss = all
+				}
+			}
+			if !okMiss {
+				// the search lives in a helper (`id := f.lowestFreeID(noID); if id == noID { return }`): every return of the helper
+				// either hands out an id under its own miss, or a value (a constant, or a parameter bound to a constant at this
+				// call) that the conditions at the insert exclude
+				if call, isCall := mu.Key.(*ssa.Call); isCall {
+					if h := call.Call.StaticCallee(); h != nil && len(h.Blocks) > 0 && c.P.OwnedFunc(h) && h.Signature.Results().Len() == 1 {
+						hv := NewFnView(c.P, h)
+						init := bound{lo: math.MinInt64, hi: math.MaxInt64, hasLo: true, hasHi: true}
+						atB := boundsFrom(vw.GuardsAt(b), keyTerm, init)
+						all, nret := true, 0
+						for _, rb := range h.Blocks {
+							ret, isRet := rb.Instrs[len(rb.Instrs)-1].(*ssa.Return)
+							if !isRet || rb == h.Recover {
+								continue
+							}
+							nret++
+							rv := ret.Results[0]
+							if missGuard(hv, rb, nil, hv.Term(rv).String(), outputsF, 0) {
+								continue
+							}
+							if prm, isP := rv.(*ssa.Parameter); isP {
+								if idx := paramIndex(prm); idx >= 0 && idx < len(call.Call.Args) {
+									rv = call.Call.Args[idx]
+								}
+							}
+							if k, isK := rv.(*ssa.Const); isK && k.Value != nil && k.Value.Kind() == constant.Int {
+								n := k.Int64()
+								if atB.excluded[n] || atB.hasLo && n < atB.lo || atB.hasHi && n > atB.hi {
+									continue
+								}
+							}
+							all = false
+						}
+						okMiss = all && nret > 0
+					}
 				}
 			}
 			c.Check(okMiss, "R15.3", key, c.P.Pos(mu.Pos()), "the id inserted was looked up (comma-ok) and found absent on every path to the insert",
@@ -1392,4 +1453,85 @@ func freshCopyOf(v, val *Term) bool {
 		return v.Args[0].StripConv().String() == val.String()
 	}
 	return false
+}
+
+type lockCopySite struct {
+	fn      *ssa.Function
+	typ     string
+	copyPos token.Pos
+	goPos   token.Pos
+}
+
+// lockCopies: in the selected functions, a local of a struct type that holds a sync.Mutex / RWMutex by value, on whose
+// address a goroutine is started (method receiver, argument or closure capture of a `go` statement), and whose whole
+// value is also loaded (returned, assigned or passed by value).
+func lockCopies(p *Program, sel func(*ssa.Function) bool) []lockCopySite {
+	var carries func(t types.Type, depth int) bool
+	carries = func(t types.Type, depth int) bool {
+		if depth > 4 {
+			return false
+		}
+		if n, ok := t.(*types.Named); ok && n.Obj().Pkg() != nil && n.Obj().Pkg().Path() == "sync" && (n.Obj().Name() == "Mutex" || n.Obj().Name() == "RWMutex") {
+			return true
+		}
+		switch u := t.Underlying().(type) {
+		case *types.Struct:
+			for i := 0; i < u.NumFields(); i++ {
+				if carries(u.Field(i).Type(), depth+1) {
+					return true
+				}
+			}
+		case *types.Array:
+			return carries(u.Elem(), depth+1)
+		}
+		return false
+	}
+	var out []lockCopySite
+	for _, fn := range p.Funcs {
+		if !sel(fn) {
+			continue
+		}
+		for _, b := range fn.Blocks {
+			for _, in := range b.Instrs {
+				a, ok := in.(*ssa.Alloc)
+				if !ok || !carries(deref(a.Type()), 0) {
+					continue
+				}
+				if _, isStruct := deref(a.Type()).Underlying().(*types.Struct); !isStruct {
+					continue
+				}
+				var goPos, copyPos token.Pos
+				for _, r := range *a.Referrers() {
+					switch x := r.(type) {
+					case *ssa.Go:
+						goPos = x.Pos()
+					case *ssa.MakeClosure:
+						for _, rr := range *x.Referrers() {
+							if g, isGo := rr.(*ssa.Go); isGo {
+								goPos = g.Pos()
+							}
+						}
+					case *ssa.UnOp:
+						if x.Op == token.MUL {
+							copyPos = x.Pos()
+							if copyPos == token.NoPos {
+								for _, rr := range *x.Referrers() {
+									if rr.Pos() != token.NoPos {
+										copyPos = rr.Pos()
+									}
+								}
+							}
+							if copyPos == token.NoPos {
+								copyPos = a.Pos()
+							}
+						}
+					}
+				}
+				if goPos != token.NoPos && copyPos != token.NoPos {
+					out = append(out, lockCopySite{fn: fn, typ: types.TypeString(deref(a.Type()), func(*types.Package) string { return "" }), copyPos: copyPos, goPos: goPos})
+				}
+			}
+		}
+	}
+	return out
 }
